@@ -19,15 +19,49 @@ structure Ctx.WF (ctx : Ctx) : Prop where
 theorem Ctx.texts_length (ctx : Ctx) (hw : ctx.WF) (f : Bool) : (ctx.texts f).length = ctx.live.length := by
   cases f <;> simp [Ctx.texts, hw.hn, hw.hc]
 
-theorem occurs_iff (pat text : List Nat) (hp : 0 < pat.length) :
-    occurs true pat text = true ↔ ∃ o, pat.isPrefixOf (text.drop o) = true := by
-  simp only [occurs, List.any_eq_true, List.mem_range, matchAt, if_true]
+/-- the texts as the leaf's verification sees them: as they are (case-sensitive) or lower-cased rune by rune
+    (case-insensitive: `caseFoldingEqualsRunes` compares the lowered pattern with `unicode.ToLower` of the text) -/
+def Sub.T (ctx : Ctx) (s : Sub) : List (List Nat) :=
+  if s.caseSens then ctx.texts s.fileName else (ctx.texts s.fileName).map (List.map toLowerRune)
+
+theorem Sub.T_length (ctx : Ctx) (s : Sub) : (s.T ctx).length = (ctx.texts s.fileName).length := by
+  unfold Sub.T; split <;> simp
+
+theorem getD_map_nil (f : Nat → Nat) (l : List (List Nat)) (d : Nat) :
+    (l.map (List.map f)).getD d [] = (l.getD d []).map f := by
+  induction l generalizing d with
+  | nil => simp
+  | cons a t ih => cases d with
+    | zero => simp
+    | succ d => simp only [List.map_cons, List.getD_cons_succ]; exact ih d
+
+/-- `matchContent` at an offset is a prefix test on the leaf's view of the text -/
+theorem matchAt_T (ctx : Ctx) (s : Sub) (d off : Nat) :
+    matchAt s.caseSens s.pat (ctx.text s.fileName d) off = s.pat.isPrefixOf (((s.T ctx).getD d []).drop off) := by
+  unfold Sub.T matchAt
+  cases s.caseSens with
+  | true => simp only [if_true]; rw [Ctx.text_eq]
+  | false =>
+    simp only [Bool.false_eq_true, if_false]
+    rw [getD_map_nil, List.map_drop, Ctx.text_eq]
+
+theorem T_getD_length (ctx : Ctx) (s : Sub) (d : Nat) :
+    ((s.T ctx).getD d []).length = (ctx.text s.fileName d).length := by
+  unfold Sub.T
+  cases s.caseSens with
+  | true => simp only [if_true]; rw [Ctx.text_eq]
+  | false => simp only [Bool.false_eq_true, if_false]; rw [getD_map_nil, List.length_map, Ctx.text_eq]
+
+/-- the scan meaning of a substring atom = some occurrence in the leaf's view of the text -/
+theorem occurs_iffT (ctx : Ctx) (s : Sub) (d : Nat) (hp : 0 < s.pat.length) :
+    occurs s.caseSens s.pat (ctx.text s.fileName d) = true ↔ ∃ o, occAt s.pat (s.T ctx) d o := by
+  simp only [occurs, List.any_eq_true, List.mem_range, matchAt_T, occAt]
   constructor
   · intro ⟨o, _, h⟩; exact ⟨o, h⟩
   · intro ⟨o, h⟩
     refine ⟨o, ?_, h⟩
     have := (List.isPrefixOf_iff_prefix.mp h).length_le
-    rw [List.length_drop] at this
+    rw [List.length_drop, T_getD_length] at this
     omega
 
 /-- truth of a substring leaf on document `d`: the pattern occurs in the text (a leaf whose iterator is the
@@ -35,48 +69,47 @@ theorem occurs_iff (pat text : List Nat) (hp : 0 < pat.length) :
 def subSemX (ctx : Ctx) (s : Sub) (d : Nat) : Bool :=
   if s.it.isNone then false else occurs s.caseSens s.pat (ctx.text s.fileName d)
 
-/-- a case-sensitive substring leaf in a search state where the documents below `L` are dealt with -/
+/-- a substring leaf (case-sensitive, or case-insensitive: then everything is stated on the lower-cased texts, and the
+    iterator's posting lists are those of all case variants) in a search state where the documents below `L` are
+    dealt with -/
 def SubOk (ctx : Ctx) (L : Nat) (s : Sub) : Prop :=
-  s.caseSens = true ∧ 0 < s.pat.length ∧
+  0 < s.pat.length ∧
   match s.it with
-  | Option.none => ∀ d o, ¬ occAt s.pat (ctx.texts s.fileName) d o
-  | some it => ∃ i, i + 3 ≤ s.pat.length ∧ totalLen (ctx.texts s.fileName) + s.pat.length < maxU32 ∧
-      it.Inv (ctx.texts s.fileName) s.pat i L
+  | Option.none => ∀ d o, ¬ occAt s.pat (s.T ctx) d o
+  | some it => ∃ i, i + 3 ≤ s.pat.length ∧ totalLen (s.T ctx) + s.pat.length < maxU32 ∧
+      it.Inv (s.T ctx) s.pat i L
 
 /-- `subSemX` is the scan meaning `occurs` for well-formed leaves -/
 theorem subSemX_eq_occurs (ctx : Ctx) (L : Nat) (s : Sub) (h : SubOk ctx L s) (d : Nat) :
     subSemX ctx s d = occurs s.caseSens s.pat (ctx.text s.fileName d) := by
-  obtain ⟨hc, hp, h3⟩ := h
+  obtain ⟨hp, h3⟩ := h
   unfold subSemX
   cases hit : s.it with
   | some it => simp
   | none =>
     rw [hit] at h3
     simp only [Option.isNone_none, if_true]
-    rw [hc]
-    cases ho : occurs true s.pat (ctx.text s.fileName d) with
+    cases ho : occurs s.caseSens s.pat (ctx.text s.fileName d) with
     | false => rfl
     | true =>
-      obtain ⟨o, ho'⟩ := (occurs_iff _ _ hp).mp ho
-      rw [Ctx.text_eq] at ho'
+      obtain ⟨o, ho'⟩ := (occurs_iffT ctx s d hp).mp ho
       exact absurd ho' (h3 d o)
 
 theorem subSemX_oob (ctx : Ctx) (hw : ctx.WF) (L : Nat) (s : Sub) (h : SubOk ctx L s) (d : Nat)
     (hd : ctx.live.length ≤ d) : subSemX ctx s d = false := by
-  rw [subSemX_eq_occurs ctx L s h d, h.1]
-  cases ho : occurs true s.pat (ctx.text s.fileName d) with
+  rw [subSemX_eq_occurs ctx L s h d]
+  cases ho : occurs s.caseSens s.pat (ctx.text s.fileName d) with
   | false => rfl
   | true =>
-    obtain ⟨o, ho'⟩ := (occurs_iff _ _ h.2.1).mp ho
-    rw [Ctx.text_eq] at ho'
+    obtain ⟨o, ho'⟩ := (occurs_iffT ctx s d h.1).mp ho
     have hlen := Ctx.texts_length ctx hw s.fileName
+    have hl := (List.isPrefixOf_iff_prefix.mp ho').length_le
+    rw [List.length_drop, T_getD_length, Ctx.text_eq] at hl
     have : (ctx.texts s.fileName).getD d [] = [] := by
       rw [List.getD_eq_getElem?_getD, List.getElem?_eq_none (by omega)]; rfl
-    rw [this] at ho'
-    have hle := (List.isPrefixOf_iff_prefix.mp ho').length_le
-    rw [List.drop_nil] at hle
-    have hle' : s.pat.length ≤ 0 := hle
-    have := h.2.1
+    rw [this] at hl
+    have hl' : s.pat.length ≤ 0 - o := hl
+    have := h.1
     omega
 
 /-- the substring leaf satisfies what `nextDoc_sound` asks of it -/
@@ -88,17 +121,16 @@ theorem subOk_sound (ctx : Ctx) (hw : ctx.WF) (L : Nat) (s : Sub) (h : SubOk ctx
     intro d hL hd
     by_cases hdn : d < ctx.live.length
     · have h' := h
-      obtain ⟨hc, hp, h3⟩ := h
+      obtain ⟨hp, h3⟩ := h
       rw [hit] at h3
       obtain ⟨i, hi, _, hinv⟩ := h3
       have hlen := Ctx.texts_length ctx hw s.fileName
-      have hno := (it.nextDoc_inv _ s.pat i L hi hinv).2 d hL hd (by omega)
-      rw [subSemX_eq_occurs ctx L s h' d, hc]
-      cases ho : occurs true s.pat (ctx.text s.fileName d) with
+      have hno := (it.nextDoc_inv _ s.pat i L hi hinv).2 d hL hd (by rw [Sub.T_length]; omega)
+      rw [subSemX_eq_occurs ctx L s h' d]
+      cases ho : occurs s.caseSens s.pat (ctx.text s.fileName d) with
       | false => rfl
       | true =>
-        obtain ⟨o, ho'⟩ := (occurs_iff _ _ hp).mp ho
-        rw [Ctx.text_eq] at ho'
+        obtain ⟨o, ho'⟩ := (occurs_iffT ctx s d hp).mp ho
         exact absurd ho' (hno o)
     · exact subSemX_oob ctx hw L s h d (by omega)
 
@@ -108,7 +140,7 @@ theorem Sub.prepare_ok (ctx : Ctx) (hw : ctx.WF) (L : Nat) (s : Sub) (h : SubOk 
     SubOk ctx (nd + 1) (s.prepare nd) ∧ (s.prepare nd).val ctx nd = subSemX ctx s nd ∧
     (∀ d, subSemX ctx (s.prepare nd) d = subSemX ctx s d) := by
   have h' := h
-  obtain ⟨hc, hp, h3⟩ := h
+  obtain ⟨hp, h3⟩ := h
   have hlen := Ctx.texts_length ctx hw s.fileName
   cases hit : s.it with
   | none =>
@@ -116,27 +148,29 @@ theorem Sub.prepare_ok (ctx : Ctx) (hw : ctx.WF) (L : Nat) (s : Sub) (h : SubOk 
     have e : s.prepare nd = Sub.mk s.fileName s.caseSens s.pat Option.none [] false := by
       simp [Sub.prepare, hit]
     rw [e]
-    refine ⟨⟨hc, hp, by simp only [hit]; exact h3⟩, ?_, fun d => by simp [subSemX, hit]⟩
+    refine ⟨⟨hp, h3⟩, ?_, fun d => by simp [subSemX, hit]⟩
     simp [Sub.val, Sub.verified, subSemX, hit]
   | some it =>
     rw [hit] at h3
     obtain ⟨i, hi, hsz, hinv⟩ := h3
-    obtain ⟨p1, p2⟩ := DocIter.prepare_candidates _ s.pat i L it hi hsz hinv nd hL (by omega)
+    obtain ⟨p1, p2⟩ := DocIter.prepare_candidates _ s.pat i L it hi hsz hinv nd hL (by rw [Sub.T_length]; omega)
     have e : s.prepare nd = Sub.mk s.fileName s.caseSens s.pat (some ((it.prepare nd).candidates.2))
         ((it.prepare nd).candidates.1) false := by
       simp [Sub.prepare, hit]
     rw [e]
-    refine ⟨⟨hc, hp, ⟨i, hi, hsz, p2⟩⟩, ?_, fun d => by simp [subSemX, hit]⟩
-    rw [subSemX_eq_occurs ctx L s h' nd, hc]
-    simp only [Sub.val, Sub.verified, Bool.false_eq_true, if_false, hc, matchAt, if_true]
-    rw [Bool.eq_iff_iff, occurs_iff _ _ hp]
+    refine ⟨⟨hp, ⟨i, hi, hsz, p2⟩⟩, ?_, fun d => by simp [subSemX, hit]⟩
+    rw [subSemX_eq_occurs ctx L s h' nd]
+    simp only [Sub.val, Sub.verified, Bool.false_eq_true, if_false]
+    rw [Bool.eq_iff_iff, occurs_iffT ctx s nd hp]
     simp only [Bool.not_eq_true', List.isEmpty_eq_false_iff_exists_mem, List.mem_filter]
     constructor
-    · intro ⟨o, _, ho⟩; exact ⟨o, ho⟩
+    · intro ⟨o, _, ho⟩
+      have := matchAt_T ctx s nd o
+      rw [this] at ho
+      exact ⟨o, ho⟩
     · intro ⟨o, ho⟩
-      refine ⟨o, ⟨p1 o ?_, ho⟩⟩
-      unfold occAt; rw [← Ctx.text_eq]; exact ho
-
+      refine ⟨o, ⟨p1 o ho, ?_⟩⟩
+      rw [matchAt_T ctx s nd o]; exact ho
 
 /-! ### trees over such leaves -/
 
@@ -221,10 +255,10 @@ theorem MT.nextDoc_keptS (ctx : Ctx) (L : Nat) : (t : MT) → t.OkS ctx L → Ke
     | none => simp only []; exact KeptS.refl ctx L _ h
     | some it =>
       simp only []
-      obtain ⟨hc, hp, h3⟩ := h
+      obtain ⟨hp, h3⟩ := h
       rw [hit] at h3
       obtain ⟨i, hi, hsz, hinv⟩ := h3
-      refine ⟨⟨hc, hp, ⟨i, hi, hsz, (it.nextDoc_inv _ s.pat i L hi hinv).1⟩⟩, fun d => ?_⟩
+      refine ⟨⟨hp, ⟨i, hi, hsz, (it.nextDoc_inv _ s.pat i L hi hinv).1⟩⟩, fun d => ?_⟩
       simp [semS, MT.sem, subSemX, hit]
   | .and k ch, h => by
     simp only [MT.nextDoc]
@@ -356,7 +390,7 @@ theorem MT.eval_keptS (ctx : Ctx) (doc cost L : Nat) : (t : MT) → t.OkS ctx L 
     simp only [MT.eval]
     obtain ⟨e1, e2, e3, e4⟩ := Sub.matches_static ctx doc cost s
     refine ⟨?_, fun d => ?_⟩
-    · simp only [MT.OkS, SubOk, e1, e2, e3, e4]; exact h
+    · simp only [MT.OkS, SubOk, Sub.T, e1, e2, e3, e4]; exact h
     · simp only [semS, MT.sem, subSemX, e1, e2, e3, e4]
   | .and k ch, h => by
     simp only [MT.eval]
@@ -568,6 +602,115 @@ def mkSub (ctx : Ctx) (fileName : Bool) (pat : List Nat) (i j : Nat) : Sub :=
 
 theorem mkSub_ok (ctx : Ctx) (fileName : Bool) (pat : List Nat) (i j : Nat) (hij : i ≤ j) (hj : j + 3 ≤ pat.length)
     (hsz : totalLen (ctx.texts fileName) + pat.length < maxU32) : SubOk ctx 0 (mkSub ctx fileName pat i j) :=
-  ⟨rfl, by simp only [mkSub]; omega, ⟨i, by simp only [mkSub]; omega, hsz, mkIter_inv _ pat i j hij hj hsz⟩⟩
+  ⟨by simp only [mkSub]; omega, ⟨i, by simp only [mkSub]; omega, hsz, mkIter_inv _ pat i j hij hj hsz⟩⟩
+
+
+/-! ### case-insensitive leaves: posting lists of all case variants -/
+
+theorem endsFrom_map (f : Nat → Nat) (texts : List (List Nat)) : ∀ b,
+    endsFrom b (texts.map (List.map f)) = endsFrom b texts := by
+  induction texts with
+  | nil => intro b; rfl
+  | cons t ts ih => intro b; simp only [List.map_cons, endsFrom, List.length_map, ih]
+
+theorem totalLen_map (f : Nat → Nat) (texts : List (List Nat)) : totalLen (texts.map (List.map f)) = totalLen texts := by
+  induction texts with
+  | nil => rfl
+  | cons t ts ih => simp only [totalLen, List.map_cons, List.sum_cons, List.length_map] at ih ⊢; rw [ih]
+
+/-- a posting of `g` in the lower-cased texts is a posting, in the original texts, of a trigram that lower-cases to `g` -/
+theorem mem_postFrom_map (f : Nat → Nat) (g : List Nat) (texts : List (List Nat)) : ∀ b x,
+    x ∈ postFrom g b (texts.map (List.map f)) →
+    ∃ g', g'.map f = g ∧ x ∈ postFrom g' b texts := by
+  induction texts with
+  | nil => intro b x h; simp [postFrom] at h
+  | cons t ts ih =>
+    intro b x h
+    simp only [List.map_cons, postFrom, List.mem_append, List.length_map] at h
+    rcases h with h | h
+    · simp only [docPost, List.mem_map, List.mem_filter, List.mem_range, List.length_map] at h
+      obtain ⟨o, ⟨ho, hg⟩, e⟩ := h
+      have hpre : g <+: (t.map f).drop o := List.isPrefixOf_iff_prefix.mp hg
+      have hlen := hpre.length_le
+      rw [List.length_drop, List.length_map] at hlen
+      refine ⟨(t.drop o).take g.length, ?_, ?_⟩
+      · rw [List.map_take, List.map_drop]
+        exact (List.prefix_iff_eq_take.mp hpre).symm
+      · simp only [postFrom, List.mem_append]
+        left
+        simp only [docPost, List.mem_map, List.mem_filter, List.mem_range]
+        exact ⟨o, ⟨ho, List.isPrefixOf_iff_prefix.mpr (List.take_prefix _ _)⟩, e⟩
+    · obtain ⟨g', e1, e2⟩ := ih _ x h
+      exact ⟨g', e1, by simp only [postFrom, List.mem_append]; right; exact e2⟩
+
+/-- the merged iterator over the posting lists of the given trigram variants -/
+def variantPostings (vars : List (List Nat)) (texts : List (List Nat)) : Basic := vars.map (fun g => post g texts)
+
+theorem variantPostings_sorted (vars : List (List Nat)) (texts : List (List Nat)) :
+    (variantPostings vars texts).Sorted := by
+  intro l hl
+  simp only [variantPostings, List.mem_map] at hl
+  obtain ⟨g, _, e⟩ := hl; subst e
+  exact postFrom_sorted g texts 0
+
+theorem variantPostings_bounded (vars : List (List Nat)) (texts : List (List Nat)) (h : totalLen texts < maxU32) :
+    (variantPostings vars texts).Bounded := by
+  intro p ⟨l, hl, hp⟩
+  simp only [variantPostings, List.mem_map] at hl
+  obtain ⟨g, _, e⟩ := hl; subst e
+  have := postFrom_range g texts 0 p hp
+  omega
+
+/-- if the variant list contains every trigram that lower-cases to `g` (what `generateCaseNgrams` yields on runes whose
+    lower-casing and simple folding agree), the merged iterator covers every posting of `g` in the lower-cased texts -/
+theorem variantPostings_cover (vars : List (List Nat)) (texts : List (List Nat)) (g : List Nat)
+    (hv : ∀ g', g'.map toLowerRune = g → g' ∈ vars) (q : Nat)
+    (hq : q ∈ post g (texts.map (List.map toLowerRune))) : (variantPostings vars texts).mem q := by
+  obtain ⟨g', e1, e2⟩ := mem_postFrom_map toLowerRune g texts 0 q hq
+  exact ⟨post g' texts, List.mem_map.mpr ⟨g', hv g' e1, rfl⟩, e2⟩
+
+/-- a fresh case-insensitive substring leaf: lowered pattern `patL`, trigram positions `i ≤ j`, iterators merging the
+    posting lists of the case variants `vars1`, `vars2` of the two selected trigrams -/
+def mkSubCI (ctx : Ctx) (fileName : Bool) (patL : List Nat) (i j : Nat) (vars1 vars2 : List (List Nat)) : Sub :=
+  ⟨fileName, false, patL,
+   some { leftPad := i, rightPad := patL.length - i,
+          iter := if i = j then .basic (variantPostings vars1 (ctx.texts fileName))
+                  else .dist ⟨variantPostings vars1 (ctx.texts fileName), variantPostings vars2 (ctx.texts fileName), j - i, false⟩,
+          ends := endsOf (ctx.texts fileName), fileIdx := 0 },
+   [], false⟩
+
+theorem mkSubCI_ok (ctx : Ctx) (fileName : Bool) (patL : List Nat) (i j : Nat) (vars1 vars2 : List (List Nat))
+    (hij : i ≤ j) (hj : j + 3 ≤ patL.length) (hsz : totalLen (ctx.texts fileName) + patL.length < maxU32)
+    (hv1 : ∀ g', g'.map toLowerRune = tri patL i → g' ∈ vars1)
+    (hv2 : ∀ g', g'.map toLowerRune = tri patL j → g' ∈ vars2) :
+    SubOk ctx 0 (mkSubCI ctx fileName patL i j vars1 vars2) := by
+  have hT : (mkSubCI ctx fileName patL i j vars1 vars2).T ctx = (ctx.texts fileName).map (List.map toLowerRune) := by
+    simp [Sub.T, mkSubCI]
+  refine ⟨by simp only [mkSubCI]; omega, ?_⟩
+  show ∃ i', i' + 3 ≤ patL.length ∧ _ ∧ DocIter.Inv _ patL i' 0 _
+  rw [hT]
+  refine ⟨i, by omega, by rw [totalLen_map]; exact hsz, ⟨rfl, rfl, ?_, ?_, ?_, fun d _ hd => by simp at hd⟩⟩
+  · simp only [endsOf, endsFrom_map]
+  · by_cases he : i = j
+    · simp only [he, if_true]
+      exact ⟨variantPostings_sorted _ _, variantPostings_bounded _ _ (by omega)⟩
+    · simp only [he, if_false]
+      exact ⟨⟨variantPostings_sorted _ _, variantPostings_sorted _ _, variantPostings_bounded _ _ (by omega),
+        variantPostings_bounded _ _ (by omega)⟩, fun h => by simp at h⟩
+  · intro d o _ hd hocc
+    have h1 := post_complete _ patL d o i hd hocc (by omega)
+    have h2 := post_complete _ patL d o j hd hocc hj
+    by_cases he : i = j
+    · simp only [he, if_true]
+      subst he
+      exact variantPostings_cover vars1 _ _ hv1 _ h1
+    · simp only [he, if_false]
+      refine ⟨variantPostings_cover vars1 _ _ hv1 _ h1, ?_⟩
+      have e : baseOf ((ctx.texts fileName).map (List.map toLowerRune)) d + o + i + (j - i) =
+          baseOf ((ctx.texts fileName).map (List.map toLowerRune)) d + o + j := by omega
+      show (variantPostings vars2 (ctx.texts fileName)).mem
+        (baseOf ((ctx.texts fileName).map (List.map toLowerRune)) d + o + i + (j - i))
+      rw [e]
+      exact variantPostings_cover vars2 _ _ hv2 _ h2
 
 end ZoektModel.C01
